@@ -96,11 +96,15 @@ def score(name):
         plan.append((meta["property"], "tsan"))
     if "C12" in meta.get("also_check", []):
         plan.append(("C12", "tsan"))
+    if meta["property"] == "C12":
+        plan.append(("C12", "tsan+isolate"))
     built = set()
     caught = False
     for prop, v in plan:
         if caught and os.environ.get("ALL") is None:
             break
+        isolate = "+isolate" in v
+        v = v.split("+")[0]
         if v not in built:
             b = sh(f"make -C /verif -j10 REPO={S} B={S}/build {v}", timeout=3000)
             if b.returncode != 0:
@@ -111,8 +115,11 @@ def score(name):
         if prop in ("C07", "C19"):
             runs //= 3
         extra = "--max-violations 1 --min-budget 100" if v == "tsan" else ""
+        if isolate:
+            extra += " --isolate"
+            runs = 1500
         r = sh(f"{S}/build/stsim_{v} run --prop {prop} --seed {os.environ.get('SEED', '20260927')} --runs {runs} --workers 8 --out {S}/o_{v}.json --replay-dir {S}/replays {extra}", timeout=3000)
-        key = f"{prop}/{v}"
+        key = f"{prop}/{v}" + ("+isolate" if isolate else "")
         try:
             j = json.load(open(f"{S}/o_{v}.json"))
             conf = [x for x in j["violations"] if x.get("confirmed")]
